@@ -130,6 +130,21 @@ pub fn remote_key(alg: &'static SignatureAlgorithm, rsa_fixture: &[u8]) -> Remot
 	Remote { key_pair: KeyPair::from_remote(Box::new(remote)).unwrap(), log, fail_at, pkcs8 }
 }
 
+/// a fresh remote key for `alg` whose public key satisfies `pred` (tried up to `tries` times)
+pub fn remote_key_where(alg: &'static SignatureAlgorithm, rsa_fixture: &[u8], tries: usize, pred: impl Fn(&[u8]) -> bool) -> Option<Remote> {
+	for _ in 0..tries {
+		let r = remote_key(alg, rsa_fixture);
+		// (the public key as the signer itself has it: ring's PKCS#8 for an EC key ends with the
+		// uncompressed point; not what rcgen reports for the wrapped key, which is under test)
+		let n = if alg == &PKCS_ECDSA_P256_SHA256 { 65 } else if alg == &PKCS_ECDSA_P384_SHA384 { 97 } else { 0 };
+		let public: Vec<u8> = if n > 0 && r.pkcs8.len() > n { r.pkcs8[r.pkcs8.len() - n..].to_vec() } else { r.key_pair.public_key_raw().to_vec() };
+		if pred(&public) {
+			return Some(r);
+		}
+	}
+	None
+}
+
 /// the given PKCS#8 key (ring in the harness) behind the `RemoteKeyPair` trait
 pub fn remote_from_pkcs8(alg: &'static SignatureAlgorithm, pkcs8: &[u8]) -> Remote {
 	let rng = SystemRandom::new();
